@@ -42,6 +42,10 @@ Genuine findings (signatures SIG_OOO -- open, listed in known_findings.json -- a
  * rollback()/close()/__exit__ of an ended RootTransaction cancels the live savepoint of a newer transaction
    (RootTransaction._close_impl), after which that savepoint's rollback() silently does nothing.
 
+The canonical state also contains the connection's private context-manager bookkeeping (which `with` block it
+believes it is in) -- for dedupe only, never for the oracle -- so that two histories that agree on everything public but
+not on that hidden state are both explored (a seeded change in TransactionalContext.__exit__ hid behind the dedupe).
+
 Mutations caught (each in a private copy, README rule 6; every one gave new VIOLATION signatures):
  M1 engine/base.py NestedTransaction._deactivate_from_connection: `_nested_transaction = None` instead of
     `self._previous_nested`                      -> in_nested_transaction False, model True (2 savepoints, inner ended)
@@ -51,6 +55,9 @@ Mutations caught (each in a private copy, README rule 6; every one gave new VIOL
  M5 Connection._execute_context: `_trans_ctx_check` branch removed  -> ended-op-did-not-raise (ins in ended `with`)
  M6 NestedTransaction._do_close: `is_active = False` first (close() no longer rolls back to the savepoint) -> visible-rows
  M7 RootTransaction._do_commit: "This transaction is inactive" raise replaced by pass -> ended-op-did-not-raise
+ M8 engine/util.py TransactionalContext.__exit__ (clean exit / exception exit): `_trans_context_manager = None` instead
+    of the enclosing manager; M9 __enter__: `_outer_trans_ctx = None`      -> ended-op-did-not-raise (ins/begin/begin_nested
+    act inside the ended outer `with` block)
 """
 from __future__ import annotations
 
